@@ -36,6 +36,14 @@ def restore(S, rest):
         S.update(rest)
 
 
+def ordered(site, xs):
+    """The elements of xs in the order the CHOOSER dictates (a list), or xs itself when nothing is forced."""
+    if CHOOSER is None:
+        return xs
+    order = CHOOSER(site, xs)
+    return xs if order is None else order
+
+
 def take():
     """Returns the events recorded so far and clears the buffer."""
     result = TRACE[:]
